@@ -156,7 +156,7 @@ class EventHandler:
             # def my_function():
             #     pass
             def property(callback):
-                self.connect(callback, priority)
+                self.connect(callback, priority, extra_kwargs)
                 return callback
 
             return property
@@ -220,7 +220,7 @@ class EventHandler:
         """
         self._prepare_emit()
         results = []
-        for _, callback, _, extra_kwargs in self.listeners:
+        for _, callback, _, extra_kwargs in list(self.listeners):  # copy: a callback may (dis)connect
             res = callback(*args, **kwargs, **extra_kwargs)
             results.append(res)
         return results
@@ -228,7 +228,7 @@ class EventHandler:
     def emit_until_result(self, *args, **kwargs):
         """Call the listeners `callback` until one returns not `None`."""
         self._prepare_emit()
-        for _, callback, _, extra_kwargs in self.listeners:
+        for _, callback, _, extra_kwargs in list(self.listeners):  # copy: a callback may (dis)connect
             res = callback(*args, **kwargs, **extra_kwargs)
             if res is not None:
                 return res
